@@ -446,6 +446,41 @@ func (e *Exec) assume(c *Term) {
 }
 
 // model extraction for scenarios
+func (e *Exec) scenarioFromModel(kind, label string, m *Model) *Scenario {
+	sc := &Scenario{Property: e.h.property, Harness: e.h.name, Kind: kind, Label: label,
+		Picks: map[string]int{}, Values: map[string]string{}, Solver: "model-eval", Observe: map[string]string{},
+		Params: e.h.params, Tier: e.h.tier}
+	for _, p := range e.picks {
+		sc.Picks[p.Name] = p.Val
+	}
+	for k, v := range e.h.fixedPicks {
+		sc.Picks[k] = v
+	}
+	for _, v := range e.tc.vars {
+		name := strings.Trim(v.ref, "|")
+		sc.Values[name] = m.vals[name]
+	}
+	for _, o := range e.observed {
+		for _, it := range flattenObs(o.name, o.val) {
+			if it.t != nil {
+				r := m.eval(it.t)
+				if !r.ok {
+					continue
+				}
+				if it.t.sort == SBool {
+					sc.Observe[it.name] = fmt.Sprint(r.b)
+				} else {
+					sc.Observe[it.name] = r.i.String()
+				}
+			} else {
+				sc.Observe[it.name] = it.s
+			}
+		}
+	}
+	sc.MapOrders = append([]string(nil), e.mapOrders...)
+	return sc
+}
+
 func (e *Exec) currentScenario(kind, label string) *Scenario {
 	sc := &Scenario{Property: e.h.property, Harness: e.h.name, Kind: kind, Label: label,
 		Picks: map[string]int{}, Values: map[string]string{}, Solver: e.solver.name, Observe: map[string]string{},
@@ -708,14 +743,21 @@ func (e *Exec) doAssert(label string, c *Term) {
 	if len(knownOr) > 0 {
 		q = e.tc.And(neg, e.tc.Not(e.tc.Or(knownOr...)))
 	}
-	r := e.checkWith(q, h.assertTimeoutMs)
+	var r string
 	var viol *Scenario
-	if r == "sat" {
-		viol = e.currentScenario("violation", label)
-	}
-	e.popModel()
-	if r == "unknown" {
-		r = e.portfolio(q)
+	if v, ok := e.holds(q); ok && v {
+		// the current model of the path already violates the assertion
+		r = "sat"
+		viol = e.scenarioFromModel("violation", label, e.model)
+	} else {
+		r = e.checkWith(q, h.assertTimeoutMs)
+		if r == "sat" {
+			viol = e.currentScenario("violation", label)
+		}
+		e.popModel()
+		if r == "unknown" {
+			r = e.portfolio(q)
+		}
 	}
 	var hits []*Scenario
 	if r != "unknown" {
@@ -820,12 +862,16 @@ func (e *Exec) doCover(label string) {
 	if have || e.replaying() {
 		return
 	}
-	r := e.checkWith(tTrue, h.assertTimeoutMs)
 	var sc *Scenario
-	if r == "sat" {
-		sc = e.currentScenario("witness", label)
+	if e.model != nil {
+		sc = e.scenarioFromModel("witness", label, e.model)
+	} else {
+		r := e.checkWith(tTrue, h.assertTimeoutMs)
+		if r == "sat" {
+			sc = e.currentScenario("witness", label)
+		}
+		e.popModel()
 	}
-	e.popModel()
 	if sc != nil {
 		h.mu.Lock()
 		if _, ok := h.covers[label]; !ok {
@@ -842,6 +888,22 @@ func (h *HarnessRun) runAll(workers int) {
 	h.queue = []workItem{{}}
 	h.start = time.Now()
 	var wg sync.WaitGroup
+	stopProgress := make(chan struct{})
+	go func() {
+		tk := time.NewTicker(30 * time.Second)
+		defer tk.Stop()
+		for {
+			select {
+			case <-stopProgress:
+				return
+			case <-tk.C:
+				h.mu.Lock()
+				fmt.Fprintf(os.Stderr, "  [progress %s] paths=%d completed=%d queue=%d active=%d elapsed=%.0fs\n", h.name, h.paths, h.completed, len(h.queue), h.active, time.Since(h.start).Seconds())
+				h.mu.Unlock()
+			}
+		}
+	}()
+	defer close(stopProgress)
 	for w := 0; w < workers; w++ {
 		wg.Add(1)
 		go func(w int) {
